@@ -3,6 +3,8 @@ package main
 import (
 	"fmt"
 	"math"
+	"sync"
+	"sync/atomic"
 
 	"github.com/paulmach/orb"
 	"github.com/paulmach/orb/geo"
@@ -269,6 +271,104 @@ func init() {
 			}
 			c.emit(e)
 		}
+		// (2d) lines that are their own mirror image in length (segments of inexact lengths - sqrt(10), sqrt(5), sqrt(13) - out,
+		// a vertex repeated in the middle, the same lengths back): an odd number of points puts one exactly on the repeated
+		// vertex. Every point is a point of the line (within 1e-9 of a segment, so none is NaN), count and ends as always.
+		for i := 0; i < c.pick(1500, 20000); i++ {
+			stepsI := [][2]int{{3, 1}, {1, 2}, {2, 3}, {1, 3}, {0, 1}, {4, 1}, {1, 1}}
+			half := 1 + c.rng.Intn(3)
+			pts := orb.LineString{{0, 0}}
+			var ds [][2]int
+			for j := 0; j < half; j++ {
+				ds = append(ds, stepsI[c.rng.Intn(len(stepsI))])
+			}
+			for _, d := range ds {
+				l := pts[len(pts)-1]
+				pts = append(pts, orb.Point{l[0] + float64(d[0]), l[1] + float64(d[1])})
+			}
+			for r := c.rng.Intn(3); r > 0; r-- {
+				pts = append(pts, pts[len(pts)-1]) // the middle vertex once, twice or three times
+			}
+			for j := half - 1; j >= 0; j-- { // the same lengths back (turned by a quarter: another direction, the same length)
+				l := pts[len(pts)-1]
+				pts = append(pts, orb.Point{l[0] + float64(ds[j][1]), l[1] + float64(ds[j][0])})
+			}
+			N := []int{3, 5, 7, 9, 2, 4}[c.rng.Intn(6)]
+			e := map[string]interface{}{"k": "fcount", "fn": "Resample", "nreq": N, "nt": 1}
+			setCurrent("resample.Resample(mirror)", e)
+			var out orb.LineString
+			site := guard(func() {
+				if i%3 == 0 { // the interval that gives the same N points
+					out = resample.ToInterval(pts.Clone(), planar.Distance, planar.Length(pts)/(float64(N)-1+1e-9))
+				} else {
+					out = resample.Resample(pts.Clone(), planar.Distance, N)
+				}
+			})
+			if site != "" {
+				c.emit(panicEvent("resample.Resample", site, e))
+				continue
+			}
+			e["n"] = len(out)
+			e["ends"] = 0
+			if len(out) >= 2 && out[0] == pts[0] && out[len(out)-1] == pts[len(pts)-1] {
+				e["ends"] = 1
+			}
+			for _, p := range out { // on the line: not NaN, within 1e-9 of one of its segments
+				best := math.Inf(1)
+				for j := 0; j+1 < len(pts); j++ {
+					if d := planar.DistanceFromSegment(pts[j], pts[j+1], p); d < best {
+						best = d
+					}
+				}
+				if !(best < 1e-9) {
+					e["ends"] = 0
+				}
+			}
+			c.emit(e)
+		}
+		// (2e) callers at the same time: four goroutines resample their own lines a few thousand times; each call returns
+		// what it returns when nobody else is calling (the functions keep no state between calls)
+		{
+			e := map[string]interface{}{"k": "fcount", "fn": "Resample", "nreq": 4, "n": 0, "ends": 1, "nt": 1}
+			setCurrent("resample.Resample(concurrent callers)", e)
+			var wg sync.WaitGroup
+			var bad int32
+			sites := make([]string, 4)
+			for g := 0; g < 4; g++ {
+				wg.Add(1)
+				go func(g int) {
+					defer wg.Done()
+					sites[g] = guard(func() {
+						ls := orb.LineString{}
+						for j := 0; j < 3+g*7; j++ {
+							ls = append(ls, orb.Point{float64(j * (g + 1)), float64((j * j) % (5 + g))})
+						}
+						want := resample.Resample(ls.Clone(), planar.Distance, 5+g)
+						for it := 0; it < 3000; it++ {
+							var got orb.LineString
+							if it%2 == 0 {
+								got = resample.Resample(ls.Clone(), planar.Distance, 5+g)
+							} else {
+								got = resample.ToInterval(ls.Clone(), planar.Distance, planar.Length(ls)/(float64(5+g)-1+1e-9))
+							}
+							if len(got) != len(want) || (it%2 == 0 && !got.Equal(want)) {
+								atomic.AddInt32(&bad, 1)
+							}
+						}
+					})
+				}(g)
+			}
+			wg.Wait()
+			for _, st := range sites {
+				if st != "" {
+					bad++
+				}
+			}
+			if bad == 0 {
+				e["n"] = 4
+			}
+			c.emit(e)
+		}
 		// (3) great-circle distance functions: count, endpoints, order on eastward paths
 		ng := c.pick(2000, 20000)
 		for i := 0; i < ng; i++ {
@@ -290,6 +390,17 @@ func init() {
 				ls = append(ls, orb.Point{west, y - 5}, orb.Point{180, y}, orb.Point{-180, y})
 				for len(ls) < k {
 					ls = append(ls, orb.Point{ls[len(ls)-1][0] + 1 + c.rng.Float64()*8, y + 3 + float64(len(ls))})
+				}
+			}
+			if i%4 == 1 {
+				// steps of exactly equal longitude and latitude differences, a few degrees each, climbing through the middle
+				// latitudes: equal on paper, of different lengths on the sphere
+				k = 3 + c.rng.Intn(4)
+				ls = make(orb.LineString, k)
+				x0, y0 := float64(c.rng.Intn(100)-150), float64(10+c.rng.Intn(20))
+				dx, dy := float64(1+c.rng.Intn(5)), float64(2+c.rng.Intn(5))
+				for j := range ls {
+					ls[j] = orb.Point{x0 + float64(j)*dx, y0 + float64(j)*dy}
 				}
 			}
 			N := 1 + c.rng.Intn(25)
@@ -331,6 +442,31 @@ func init() {
 				}
 				if !on {
 					online = 0
+				}
+			}
+			// equally spaced under the distance function given: the way along the line to the k-th point - whole segments
+			// before it plus the piece of its own segment - is k/(N-1) of the whole, within 1.5 % of a segment's length (measured on the unchanged code: at most 0.4 %; segments are a
+			// few degrees long: a point of a segment is placed by interpolating lon/lat, which is that good there)
+			if i%4 == 1 && N >= 2 && len(out) == N && online == 1 {
+				total := 0.0
+				for j := 0; j+1 < len(ls); j++ {
+					total += df(ls[j], ls[j+1])
+				}
+				for kx, p := range out {
+					along, found := 0.0, false
+					for j := 0; j+1 < len(ls) && !found; j++ {
+						a, b := ls[j], ls[j+1]
+						t := ((p[0]-a[0])*(b[0]-a[0]) + (p[1]-a[1])*(b[1]-a[1])) / ((b[0]-a[0])*(b[0]-a[0]) + (b[1]-a[1])*(b[1]-a[1]))
+						if t >= -1e-9 && t <= 1+1e-9 && math.Abs((b[0]-a[0])*(p[1]-a[1])-(b[1]-a[1])*(p[0]-a[0])) < 1e-7 {
+							along += df(a, p)
+							found = true
+						} else {
+							along += df(a, b)
+						}
+					}
+					if want := total * float64(kx) / float64(N-1); !found || math.Abs(along-want) > 0.015*total/float64(len(ls)-1) {
+						online = 0
+					}
 				}
 			}
 			e["online"] = online
